@@ -1,6 +1,8 @@
 // C06 search/tie harness: bit-exact event replays on the real Stepper.
 //
-// usage: replay <simple|linear|mock> <slots> <track_order> <timing> <status_checker> <warmup> <dump>
+// usage: replay <simple|linear|mock> <slots> <track_order> <timing> <status_checker> <warmup> <dump> [stream]
+//   stream (default 0): StreamId of the state; for stream > 0 the CoreParams are built with
+//           max_streams = stream + 1 (same construction as GlobalTestBase::build_core)
 //   simple: SimpleTestBase (Compton gammas, two boxes, neutral along-step)
 //   linear: SimpleTestBase with the general linear along-step action (other along-step kernel)
 //   mock  : MockTestBase (continuous loss, integral xs, several materials). Its host
@@ -45,6 +47,8 @@
 #include "celeritas/phys/ParticleParams.hh"
 #include "celeritas/phys/Primary.hh"
 #include "celeritas/track/TrackInitParams.hh"
+#include "celeritas/track/StatusChecker.hh"
+#include "corecel/data/AuxParamsRegistry.hh"
 #include "celeritas/user/StepCollector.hh"
 #include "celeritas/user/StepInterface.hh"
 #include "celeritas/user/StepData.hh"
@@ -158,12 +162,42 @@ template<class Base>
 class Problem : public Base
 {
   public:
-    Problem(TrackOrder order, bool status_checker) : order_(order)
+    Problem(TrackOrder order, bool status_checker) : order_(order), checker_(status_checker)
     {
         if (!status_checker)
             this->disable_status_checker();
     }
     void TestBody() override {}
+
+    // GlobalTestBase::build_core, but with max_streams > 1
+    std::shared_ptr<CoreParams const> make_core(size_type max_streams)
+    {
+        CoreParams::Input inp;
+        inp.geometry = this->geometry();
+        inp.material = this->material();
+        inp.geomaterial = this->geomaterial();
+        inp.particle = this->particle();
+        inp.cutoff = this->cutoff();
+        inp.physics = this->physics();
+        inp.rng = this->rng();
+        inp.sim = this->sim();
+        inp.init = this->init();
+        inp.wentzel = this->wentzel();
+        inp.action_reg = this->action_reg();
+        inp.output_reg = this->output_reg();
+        inp.aux_reg = this->aux_reg();
+        inp.max_streams = max_streams;
+        auto&& along_step = this->along_step();
+        CELER_VALIDATE(along_step, << "no along-step action");
+        if (checker_)
+        {
+            auto status_checker = std::make_shared<StatusChecker>(
+                inp.action_reg->next_id(), inp.aux_reg->next_id());
+            inp.action_reg->insert(status_checker);
+            inp.aux_reg->insert(status_checker);
+        }
+        return std::make_shared<CoreParams>(std::move(inp));
+    }
 
     typename Base::SPConstTrackInit build_init() override
     {
@@ -189,6 +223,7 @@ class Problem : public Base
 
   private:
     TrackOrder order_;
+    bool checker_;
 };
 
 Real3 iso(SplitMix& g)
@@ -250,18 +285,22 @@ std::vector<Primary> make_primaries(P& prob, int kind, unsigned event, unsigned 
 }
 
 template<class Base>
-int run(int kind, size_type slots, TrackOrder order, bool timing, bool checker, bool warmup, bool dump)
+int run(int kind, size_type slots, TrackOrder order, bool timing, bool checker, bool warmup, bool dump, size_type stream)
 {
     Problem<Base> prob(order, checker);
     prob.field_ = (kind == 1);
-    auto core = prob.core();
+    std::shared_ptr<CoreParams const> core;
+    if (stream == 0)
+        core = prob.core();
+    else
+        core = prob.make_core(stream + 1);
     auto rec = std::make_shared<Recorder>();
     rec->reg = core->action_reg().get();
     auto collector = StepCollector::make_and_insert(*core, {rec});
 
     StepperInput inp;
     inp.params = core;
-    inp.stream_id = StreamId{0};
+    inp.stream_id = StreamId{stream};
     inp.num_track_slots = slots;
     inp.action_times = timing;
     Stepper<MemSpace::host> step(inp);
@@ -366,7 +405,7 @@ int run(int kind, size_type slots, TrackOrder order, bool timing, bool checker, 
 
 int main(int argc, char** argv)
 {
-    if (argc != 8)
+    if (argc != 8 && argc != 9)
     {
         std::cerr << "usage: replay <simple|linear|mock> <slots> <track_order> <timing> <checker> <warmup> <dump>\n";
         return 2;
@@ -375,14 +414,15 @@ int main(int argc, char** argv)
     size_type slots = std::stoul(argv[2]);
     TrackOrder order = parse_order(argv[3]);
     bool timing = std::stoi(argv[4]), checker = std::stoi(argv[5]), warm = std::stoi(argv[6]), dump = std::stoi(argv[7]);
+    size_type stream = argc == 9 ? std::stoul(argv[8]) : 0;
     try
     {
         if (prob == "simple")
-            return run<test::SimpleTestBase>(0, slots, order, timing, checker, warm, dump);
+            return run<test::SimpleTestBase>(0, slots, order, timing, checker, warm, dump, stream);
         if (prob == "linear")
-            return run<test::SimpleTestBase>(1, slots, order, timing, checker, warm, dump);
+            return run<test::SimpleTestBase>(1, slots, order, timing, checker, warm, dump, stream);
         if (prob == "mock")
-            return run<test::MockTestBase>(2, slots, order, timing, checker, warm, dump);
+            return run<test::MockTestBase>(2, slots, order, timing, checker, warm, dump, stream);
     }
     catch (std::exception const& e)
     {
